@@ -94,6 +94,23 @@ ASSUMPTIONS = [
     'str is the list of its elements in arbitrary order, sorted() = Render.sort_strs, sum() of ints = left fold of + from 0, '
     'sep.join = Render.join, str(x) of a str is x, ctx.listsep reads the RenderContext encoding, an Enum member is the pair (tag, name) '
     'and .name reads it; InventoryRenderer.positionsortkey, a plain function: a Position carries an Amount and a full Cost or None, -Decimal = Base.Decimal.dec_neg - C16_source_inventory_sortkey); C16_cost_fits assumes the amount part fits its AmountRenderer width and that %Y-%m-%d gives 10 characters',
+    'translator tie, InventoryRenderer.format, expanded layout (bld-render6; C16_source_inventory_format_expand / _format_cell): the FIRST '
+    'statement of format (`if self.expand: ...; return strings`, selected structurally, rules I0-I2 of harness/vf/src_renderinv.py) is '
+    'translated into coq/Gen/SrcRenderInv.v and proved (coq/Proofs/SrcRenderInv.v) to return map (p_format st) (sort_pos l) = '
+    'Render.inv_format for every inventory l, when self.renderers holds under the key True a PositionRenderer prepared in state st; trusted '
+    '(coq/Model/PrimsRenderInv.v): sorted(positions, key=self.positionsortkey) IS the stable sort Render.sort_pos (by pos_le: currency, '
+    'number descending, cost none-first / currency / number descending; the key function itself is tied, that Python orders its key tuples '
+    'like pos_le is assumed, and Render.posn has no cost date / label), self.renderers is an association list whose MISSING keys are Stuck '
+    '(the defaultdict factory lambda: PositionRenderer(ctx) is not modelled), an owned PositionRenderer is the tuple of its fields and its '
+    'format is the translated PositionRenderer.format interpreted on them, Inventory.get_positions() is the list of positions); '
+    'InventoryRenderer.update, its FIRST statement only (the loop feeding self.renderers[self.expand or currency]; rule U1: '
+    'self.renderers[K].update(x) as read-modify-write of the dict entry = no aliasing of the owned renderer; C16_source_inventory_update_loop, '
+    'C16_source_inventory_column: with expand = True the renderer under the key True absorbs the positions in order, ending in Render.inv_state), '
+    'trusted: ddict.getdefault answers for a missing key the parameter fresh_posr = the object C16_source_position_init proves '
+    'PositionRenderer.__init__ builds (the factory lambda: PositionRenderer(ctx) itself and InventoryRenderer.__init__ are not translated), '
+    'dict.set keeps an existing key in place and appends a new one, update on an owned PositionRenderer is the translated '
+    'PositionRenderer.update interpreted on its fields.  NOT tied: InventoryRenderer.__init__ / prepare, the Counter / self.counts '
+    'statements of update, and the two non-expanded layouts of format (Render.v does not model them)',
 ]
 
 
@@ -103,6 +120,7 @@ def generate():
     from . import gen_src
     out = gen_src.generate('render')
     out.update(gen_src.generate('renderset'))      # SetRenderer / EnumRenderer (coq/Gen/SrcRenderSet.v)
+    out.update(gen_src.generate('renderinv'))      # InventoryRenderer.format, expanded layout (coq/Gen/SrcRenderInv.v)
     return out
 
 # ------------------------------------------------------------------ cases (JSON-able)
